@@ -123,7 +123,7 @@ func (s *c09State) isGate(in ssa.Instruction) bool {
 // callbackGate: cl passes, as argument i, a function literal that captures the
 // context and consults it before returning successfully, to a module function
 // every successful return of which yields the result of calling parameter i.
-func (s *c09State) callbackGate(cl *ssa.Call) bool {
+func (s *c09State) callbackGate(cl *ssa.Call, strict ...bool) bool {
 	g := staticCallee(&cl.Call)
 	if g == nil || !inModule(g) || g.Blocks == nil {
 		return false
@@ -171,11 +171,36 @@ func (s *c09State) callbackGate(cl *ssa.Call) bool {
 				okAll = false
 			}
 		})
+		if okAll && n > 0 && len(strict) > 0 && strict[0] {
+			// for the kind reported with a done context: g makes no return of its own — an error it decides itself — before it
+			// has called the literal (which consults the context first)
+			pi := i
+			callsParam := func(in ssa.Instruction) bool {
+				c2, ok := in.(*ssa.Call)
+				return ok && !c2.Call.IsInvoke() && pi < len(g.Params) && resolveValue(c2.Call.Value) == ssa.Value(g.Params[pi])
+			}
+			if pathPruned(g, nil, callsParam, func(in ssa.Instruction) bool { _, isRet := in.(*ssa.Return); return isRet }, nil) != nil {
+				okAll = false
+			}
+		}
 		if okAll && n > 0 && s.resultHeeded(cl) {
 			return true
 		}
 	}
 	return false
+}
+
+// isGateStrict is isGate for the rule about the *kind* reported (A12): a callee that is handed a gate-first literal counts
+// only if it cannot fail by itself before it calls the literal.
+func (s *c09State) isGateStrict(in ssa.Instruction) bool {
+	cl, ok := in.(*ssa.Call)
+	if !ok {
+		return false
+	}
+	if s.callbackGate(cl) && !s.callbackGate(cl, true) {
+		return false
+	}
+	return s.isGate(in)
 }
 
 func isContextualWrapper(v ssa.Value) bool {
@@ -422,8 +447,30 @@ func runC09(c *Ctx) {
 			}
 			return true
 		}
+		// a helper that is handed a literal which consults the context, but can fail by itself before it calls the literal
+		// (it looks at the path first): the context-taking function consults its context itself before that call
+		allInstrs(f, func(in ssa.Instruction) {
+			cl, ok := in.(*ssa.Call)
+			if !ok || !s.callbackGate(cl) || s.callbackGate(cl, true) {
+				return
+			}
+			direct := false
+			allInstrs(f, func(j ssa.Instruction) {
+				g, ok := j.(*ssa.Call)
+				if !ok || g == cl {
+					return
+				}
+				n := calleeFull(&g.Call)
+				isDirect := n == modPath+"/parallelisation.DetermineContextError" || (g.Call.IsInvoke() && g.Call.Method.Name() == "Err" && g.Call.Value.Type().String() == "context.Context")
+				if isDirect && s.isGate(g) && dominates(g, cl) {
+					direct = true
+				}
+			})
+			c.check(direct, "A12", fname(f)+"/kind-when-done:before-"+staticCallee(&cl.Call).Name(), c.ipos(cl), "the context is consulted before the helper that may fail by itself is called",
+				staticCallee(&cl.Call).Name()+" is handed a function that consults the context, but it can fail by itself before it calls it (it examines the path first): with a context that is already done "+f.Name()+" answers with that failure ('invalid: not a file', 'not found') instead of 'cancelled' / 'timeout', after backend operations have been made")
+		})
 		key := fname(f) + "/kind-when-done"
-		if bad := pathPruned(f, nil, s.isGate, target, nil); bad != nil {
+		if bad := pathPruned(f, nil, s.isGateStrict, target, nil); bad != nil {
 			c.violate("A12", key, c.ipos(bad), "this error return can be reached from the entry of "+f.Name()+" before its context has been consulted: with a context that is already done the call fails with another kind than 'cancelled' / 'timeout'")
 		} else {
 			c.ok("A12", key, c.pos(f.Pos()), "no failure other than a closed resource is reported before the context has been consulted")
